@@ -94,7 +94,9 @@ impl Formatter {
     fn format_docstring(&mut self, doc: &str) {
         // Trim leading and trailing whitespace from the docstring content
         // to ensure idempotent formatting
-        let trimmed = doc.trim();
+        // the content sits between `"""`: backslashes and double quotes must stay what they were
+        let escaped = doc.trim().replace('\\', "\\\\").replace('"', "\\\"");
+        let trimmed = escaped.as_str();
         if trimmed.is_empty() {
             self.writer.writeln("\"\"\"\"\"\"");
         } else if trimmed.contains('\n') {
